@@ -32,8 +32,12 @@ PARTIAL = ('C09_aligned / C09_same_code are proved for every source of the refer
            'The first two exclusions are needed: C09_aligned_paren_prefix_refuted, C09_aligned_if_do_refuted. C09_same_code is about the '
            'lexer MODEL run on the written text of the writer MODEL (both tied to the code by correspondence; the reference dialect of '
            'Spec/LuaLex.v bounds it: no lone CR, no `--[==[`); C09_luafmt_holds / C09_echo_holds give the whole instance predicate holds_C09 '
-           '(parsed to the end, same code view, line-scoped constructs keep their extent) for the model inside that domain. Whole-program idempotence moved to C10_idempotent. Not proved: '
-           'completeness of the parser on valid programs (C08), i.e. that every valid program is inside the domain. See notes/C09.md')
+           '(parsed to the end, same code view, line-scoped constructs keep their extent) for the model inside that domain. Whole-program idempotence moved to C10_idempotent. '
+           'Valid programs ARE inside the domain: C09_valid_in_domain / C09_valid_programs (Proofs/ValidDomain1..6.v, ValidDomainLex.v) - every source of the '
+           'reference dialect whose lexer tokens have a derivation g in the reference grammar with line_scoped, excl g (the side condition of '
+           'C08_complete: call ambiguity `;(`, one-line if body not empty / not a do-block = finding short-if-do-body, else part not empty) '
+           'and g_no_paren_suffix g (= finding paren-suffix) is parsed to the end, luafmt / the echo writer succeed and holds_C09 holds with '
+           'valid = true. Left: the two findings and the side conditions of excl. See notes/C09.md')
 CLAIM = dict(
     text=("Model/AstWriter.v mirrors LuaASTEchoWriter (every handler, _get_text/_get_name/_get_semis/_get_code_for_spaces "
           "with the token cursor and the indent counter, the end-of-input check of to_lines), parameterised by the spaces "
@@ -58,7 +62,14 @@ CLAIM = dict(
           "on a later line), whole-program idempotence on texts is C10_idempotent (Properties/C10.v, Proofs/FmtRelexIdem.v, built on the "
           "re-lexing theorem behind C09_same_code), "
           "C09_run_same_comments (every re.sub of _get_code_for_spaces is neutral for a byte-level "
-          "white-space / comment automaton). Proof route: Proofs/ParserShape.v re-runs the weakest-precondition proof of the parser with the "
+          "white-space / comment automaton), C09_valid_in_domain / C09_valid_tree_in_domain (a token list with a derivation g of the "
+          "reference grammar - derives, line_scoped, the side condition excl of C08_complete, and g_no_paren_suffix g: no call / index / "
+          "field / method suffix on a parenthesised expression - is parsed to its end into a tree with strict, no_if_do, no_paren_prefix; "
+          "with plain_tokens that is `writable`), C09_lexer_plain_tokens (plain_tokens holds of the lexer model's tokens of every source "
+          "of the reference dialect), C09_valid_programs / C09_valid_programs_echo (composition: for every such source luafmt - every "
+          "width - and the echo writer succeed and the observation satisfies holds_C09 with valid = true), C09_conditions_needed (each "
+          "of the two conditions excludes exactly its finding's witness). Proof route: Proofs/ValidDomain1..6.v re-run the completeness "
+          "proof of C08 with the relation `the tree denotes the derivation and lies in the domain`; Proofs/ParserShape.v re-runs the weakest-precondition proof of the parser with the "
           "postcondition `span` (every leaf was the first significant token at the cursor, node ends are cursors) and `shaped` "
           "(per node class, which hidden keyword / symbol leaves, token leaves and sub-nodes occur in which order); "
           "Proofs/AstWriterAligned.v shows by induction on the tree that the walk re-emits exactly the leaves; Proofs/FmtRelexAuto.v "
